@@ -266,3 +266,41 @@ def run(ctx):
     from ..tyast import Ty, _serial
     import typing as t
     drive.for_each_case(ctx, 'arrays', max(6, ctx.budget // 100), body_arrays, gen=lambda c, r: Ty('int'))
+
+    # user converters hand the library objects the CALLER owns (a converter whose into_data returns the instance's own mapping, whose
+    # try_convert keeps the mapping it was given): tagged unions, containers and dataclasses around them add their keys to copies only
+    def body_user_converters(i, rng, ty_unused, T_unused):
+        from pane.annotations import Tagged
+
+        class Doc:
+            def __init__(self, kind, body):
+                self.kind, self.body = kind, body
+
+        def mk(kindv):
+            cls_ = type(f"Doc_{kindv}", (Doc,), {'kind': kindv})
+
+            class Conv(env.Converter):
+                def expected(self, plural=False): return f"{kindv} document"
+                def into_data(self, val): return val.body              # the caller's own dict
+                def try_convert(self, val):
+                    if not isinstance(val, collections.abc.Mapping):
+                        raise env.ParseInterrupt()
+                    return cls_(kindv, val)                            # keeps the mapping it was given
+                def collect_errors(self, val):
+                    return None if isinstance(val, collections.abc.Mapping) else env.m_errors.WrongTypeError(self.expected(), val)
+            return cls_, Conv()
+        A, ca = mk('a')
+        B, cb = mk('b')
+        custom = {A: ca, B: cb}
+        ext = rng.choice((False, True, ('t', 'c')))
+        U = t.Annotated[t.Union[A, B], Tagged('kind', ext)]
+        doc = A('a', {'x': 1, 'nested': {'y': [1, 2]}})
+        for TT, x in ((U, doc), (t.List[U], [doc, B('b', {'z': 0})]), (t.Dict[str, U], {'k': doc})):
+            ctx.count('user_converter_objects_checked')
+            watch = [x, doc.body, doc.body['nested']]
+            checked('into_data(user-converted)', i, Ty('any'), env.into_data, (x, TT), {'custom': custom}, watch=watch)
+        data = {'kind': 'a', 'x': 1} if ext is False else ({'a': {'x': 1}} if ext is True else {'t': 'a', 'c': {'x': 1}})
+        checked('from_data(user-converted)', i, Ty('any'), env.from_data, (data, U), {'custom': custom}, watch=[data])
+        checked('from_data(user-converted, list)', i, Ty('any'), env.from_data, ([data, data], t.List[U]), {'custom': custom}, watch=[data])
+
+    drive.for_each_case(ctx, 'user-converters', max(20, ctx.budget // 30), body_user_converters, gen=lambda c, r: Ty('int'))
